@@ -332,6 +332,34 @@ func callTreeWorkload(c Case, tier string, res *CaseResult, each func(tr treeRun
 			return
 		}
 		finish(fs, sc.desc(), "tree")
+		// the same tree with the host re-entering the EVM from inside join points (an Aspect-initiated call): from the
+		// top-level frame's join points (depth 0) and from nested ones
+		{
+			var fsR *h.ForkSession
+			reentered := 0
+			pr := clonePlan(plan)
+			pr.OnFiring = func(x *h.Exec, firing int, contract common.Address, pointcut string) {
+				if fsR == nil || reentered >= 3 || (firing+int(c.Seed))%2 != 0 {
+					return
+				}
+				reentered++
+				evm := fsR.EVM
+				evm.CloseAspectCall()
+				target := h.ContractAddr(int(c.Seed>>4) % sc.NContract)
+				if fsR.Rules.IsBerlin {
+					fsR.DB.AddAddressToAccessList(target)
+				}
+				evm.Call(fsR.Ctx, avm.AccountRef(h.Sender), target, []byte{0}, 60000, new(big.Int))
+				evm.AspectCall()
+			}
+			fsR = h.NewForkSession(sc.World, h.EnvSpec{Fork: sc.Fork}, h.ForkOpts{Debug: true, RecSteps: true, JoinPoints: true, Plan: pr})
+			if ir := fsR.Invoke(sc.Tx); ir.Panic != "" {
+				res.Count("panics_seen", 1)
+			} else {
+				finish(fsR, sc.desc()+fmt.Sprintf(" (host re-entered %d times from join points)", reentered), "reentrant")
+				res.Count("host_reentrant_calls", int64(reentered))
+			}
+		}
 		firings := firingsOf(fs.L)
 		for _, f := range firings {
 			kind := int((c.Seed + uint64(f.idx)) % 4)
